@@ -4,7 +4,7 @@ import os
 
 LEVEL_NOTE = ("Trusted: Coq 8.16.1 kernel (coqc, full .vo; coqchk in thorough), extraction (ExtrOcamlBasic, "
               "ExtrOcamlNativeString), driver/main.ml binary64 NumOps record and wire syntax, harness generators/"
-              "comparison, xlate/pyxlate.py (source-to-Gallina translator for decision and arithmetic expressions and 14 whole function bodies, re-run and "
+              "comparison, xlate/pyxlate.py (source-to-Gallina translator for decision and arithmetic expressions and 17 whole function bodies, re-run and "
               "re-proved equal to the model on every run), coq/Spec/*.v as transcription of the rules; that binary64 satisfies the number laws is proved "
               "for Coq's primitive floats (NumF) and for exact rationals (NumQ). Axioms per theorem: see evidence (Print Assumptions).")
 
